@@ -151,6 +151,43 @@ theorem validate_alg (k : Key) (op : KOp) (h : k.validate op = none) (hz : k.alg
       · rw [ha, he]
       · simp [he] at h
 
+/-- (repair e8483d3) `validate` accepts an EC2 key only if x and d, when present, are byte strings
+    and y, when present, a byte string or a boolean -/
+theorem validate_ec2_typecheck (k : Key) (op : KOp) (h : k.validate op = none) (h2 : k.kty = 2) :
+    (!k.paramIsBstr (-2) false || !k.paramIsBstr (-3) true || !k.paramIsBstr (-4) false)
+      = false := by
+  cases ht : (!k.paramIsBstr (-2) false || !k.paramIsBstr (-3) true || !k.paramIsBstr (-4) false)
+  · rfl
+  · unfold Key.validate at h
+    simp [h2, ht] at h
+
+/-- … and an OKP key only if x and d, when present, are byte strings -/
+theorem validate_okp_typecheck (k : Key) (op : KOp) (h : k.validate op = none) (h1 : k.kty = 1) :
+    (!k.paramIsBstr (-2) false || !k.paramIsBstr (-4) false) = false := by
+  cases ht : (!k.paramIsBstr (-2) false || !k.paramIsBstr (-4) false)
+  · rfl
+  · unfold Key.validate at h
+    simp [h1, ht] at h
+
+/-- a parameter `ParamBytes` reads a non-empty string from is a byte string -/
+theorem paramIsBstr_of_pbytes_pos (k : Key) (l : Int) (b : Bool) (h : 0 < (k.pbytes l).length) :
+    k.paramIsBstr l b = true := by
+  unfold Key.pbytes paramBytes at h
+  unfold Key.paramIsBstr
+  cases hl : k.params.lookup (lbl l) with
+  | none => rfl
+  | some v => cases v <;> simp_all [Lk.getD]
+
+/-- an absent parameter passes the type test -/
+theorem paramIsBstr_of_absent (k : Key) (l : Int) (b : Bool)
+    (h : k.params.lookup (lbl l) = none) : k.paramIsBstr l b = true := by
+  simp [Key.paramIsBstr, h]
+
+/-- a byte-string parameter passes the type test -/
+theorem paramIsBstr_of_bytes (k : Key) (l : Int) (b : Bool) (x : Bytes)
+    (h : k.params.lookup (lbl l) = some (.bytes x)) : k.paramIsBstr l b = true := by
+  simp [Key.paramIsBstr, h]
+
 theorem verifier_gate (k : Key) (oc : Bool) (a : Int) (h : k.verifier oc = .ok a) :
     k.canOp 2 = true ∧ (k.kty = 2 ∨ k.kty = 1) ∧ k.deriveAlgorithm = some a ∧
     (k.alg = 0 ∨ k.alg = a) ∧
@@ -214,16 +251,18 @@ theorem verifier_gate (k : Key) (oc : Bool) (a : Int) (h : k.verifier oc = .ok a
                 · cases hd
                 · split at hd <;> cases hd
             have hxy : (k.pbytes (-2)).length ≠ 0 ∧ (k.pbytes (-3)).length ≠ 0 := by
-              constructor <;> intro hz <;> (unfold Key.validate at hv; simp [h2, hz] at hv)
+              have ht := validate_ec2_typecheck k .verify hv h2
+              constructor <;> intro hz <;> (unfold Key.validate at hv; simp [h2, hz, ht] at hv)
             refine ⟨hxy.1, hxy.2, ?_⟩
             simp only [hne8, if_false] at h
             cases oc
             · simp at h
             · rfl
           · intro h1 hz
+            have ht := validate_okp_typecheck k .verify hv h1
             unfold Key.validate at hv
             have h12 : ¬ k.kty = 2 := by omega
-            simp [h1, hz] at hv
+            simp [h1, hz, ht] at hv
   · simp [hc] at h
 
 /-- the three facts `Key.UnmarshalCBOR` establishes before returning a key -/
@@ -259,6 +298,8 @@ theorem validate_ec2 (k : Key) (op : KOp) (h : k.validate op = none) (h2 : k.kty
     clear h
     split at hs
     · cases hs
+    split at hs
+    · cases hs
     · split at hs
       · cases hs
       · split at hs
@@ -291,6 +332,8 @@ theorem validate_okp (k : Key) (op : KOp) (h : k.validate op = none) (h1 : k.kty
     rw [if_neg (by decide : ¬ (1 : Int) = 2)] at hs
     split at hs
     · cases hs
+    split at hs
+    · cases hs
     · split at hs
       · cases hs
       · split at hs
@@ -304,6 +347,106 @@ theorem validate_okp (k : Key) (op : KOp) (h : k.validate op = none) (h1 : k.kty
                 fun e => hc (Or.inr (Or.inr e)), ?_, ?_⟩
               · omega
               · omega
+
+/-! ### coordinate types (repair e8483d3) -/
+
+/-- what the type test says about a present parameter -/
+theorem paramIsBstr_inv (k : Key) (l : Int) (orBool : Bool) (h : k.paramIsBstr l orBool = true)
+    (v : GoVal) (hl : k.params.lookup (lbl l) = some v) :
+    (∃ b, v = .bytes b) ∨ v = .bytesNil ∨ (orBool = true ∧ ∃ s, v = .bool s) := by
+  unfold Key.paramIsBstr at h
+  rw [hl] at h
+  cases v <;> simp at h
+  case bytes b => exact Or.inl ⟨b, rfl⟩
+  case bytesNil => exact Or.inr (Or.inl rfl)
+  case bool s => exact Or.inr (Or.inr ⟨h, s, rfl⟩)
+
+theorem pbytes_of_bytes (k : Key) (l : Int) (b : Bytes)
+    (hl : k.params.lookup (lbl l) = some (.bytes b)) : k.pbytes l = b := by
+  simp [Key.pbytes, paramBytes, hl, Lk.getD]
+
+/-- a coordinate of the right type and size: a byte string no longer than `size` when `size > 0`,
+    or a typed-nil `[]byte` (in-memory keys only: the decoder never yields one), or — for y only —
+    a boolean -/
+def CoordOK (size : Nat) (orBool : Bool) (v : GoVal) : Prop :=
+  (∃ b, v = .bytes b ∧ (size > 0 → b.length ≤ size)) ∨ v = .bytesNil ∨
+    (orBool = true ∧ ∃ s, v = .bool s)
+
+/-- MAIN: an EC2 key `validate` accepts has EVERY PRESENT x, y, d of the right type — x and d byte
+    strings, y a byte string or the sign bit — and within the curve's size.  (Before e8483d3 the
+    size bound of `validate_ec2` spoke about `ParamBytes`, which reads a parameter of any other
+    type as absent: a 100-character text string for d passed.) -/
+theorem validate_ec2_coords (k : Key) (op : KOp) (h : k.validate op = none) (h2 : k.kty = 2) :
+    (∀ v, k.params.lookup (lbl (-2)) = some v → CoordOK (curveSize k.crv) false v) ∧
+    (∀ v, k.params.lookup (lbl (-3)) = some v → CoordOK (curveSize k.crv) true v) ∧
+    (∀ v, k.params.lookup (lbl (-4)) = some v → CoordOK (curveSize k.crv) false v) := by
+  have ht := validate_ec2_typecheck k op h h2
+  simp only [Bool.or_eq_false_iff, Bool.not_eq_false'] at ht
+  obtain ⟨_, _, _, _, _, hsz⟩ := validate_ec2 k op h h2
+  have key : ∀ (l : Int) (ob : Bool), k.paramIsBstr l ob = true →
+      (curveSize k.crv > 0 → (k.pbytes l).length ≤ curveSize k.crv) →
+      ∀ v, k.params.lookup (lbl l) = some v → CoordOK (curveSize k.crv) ob v := by
+    intro l ob hp hb v hl
+    rcases paramIsBstr_inv k l ob hp v hl with ⟨b, rfl⟩ | hn | hbo
+    · refine Or.inl ⟨b, rfl, fun hpos => ?_⟩
+      have := hb hpos
+      rwa [pbytes_of_bytes k l b hl] at this
+    · exact Or.inr (Or.inl hn)
+    · exact Or.inr (Or.inr hbo)
+  exact ⟨key (-2) false ht.1.1 (fun hp => (hsz hp).1), key (-3) true ht.1.2 (fun hp => (hsz hp).2.1),
+    key (-4) false ht.2 (fun hp => (hsz hp).2.2)⟩
+
+/-- MAIN: an OKP key `validate` accepts has every present x and d a byte string of 32 bytes (or
+    empty) -/
+theorem validate_okp_coords (k : Key) (op : KOp) (h : k.validate op = none) (h1 : k.kty = 1) :
+    (∀ v, k.params.lookup (lbl (-2)) = some v →
+      (∃ b, v = .bytes b ∧ (b.length = 0 ∨ b.length = 32)) ∨ v = .bytesNil) ∧
+    (∀ v, k.params.lookup (lbl (-4)) = some v →
+      (∃ b, v = .bytes b ∧ (b.length = 0 ∨ b.length = 32)) ∨ v = .bytesNil) := by
+  have ht := validate_okp_typecheck k op h h1
+  simp only [Bool.or_eq_false_iff, Bool.not_eq_false'] at ht
+  obtain ⟨_, _, _, _, hx, hd⟩ := validate_okp k op h h1
+  have key : ∀ (l : Int), k.paramIsBstr l false = true →
+      ((k.pbytes l).length = 0 ∨ (k.pbytes l).length = 32) →
+      ∀ v, k.params.lookup (lbl l) = some v →
+        (∃ b, v = .bytes b ∧ (b.length = 0 ∨ b.length = 32)) ∨ v = .bytesNil := by
+    intro l hp hb v hl
+    rcases paramIsBstr_inv k l false hp v hl with ⟨b, rfl⟩ | hn | ⟨hbo, _⟩
+    · refine Or.inl ⟨b, rfl, ?_⟩
+      rwa [pbytes_of_bytes k l b hl] at hb
+    · exact Or.inr hn
+    · cases hbo
+  exact ⟨key (-2) ht.1 hx, key (-4) ht.2 hd⟩
+
+/-- the flaw the repair closed, as a refusal: an EC2 key with a text string (any length) for d,
+    or `null` for x, or an integer for y, is invalid for every operation -/
+theorem validate_ec2_refuses_wrong_type (k : Key) (op : KOp) (h2 : k.kty = 2) (l : Int)
+    (hl : l = -2 ∨ l = -3 ∨ l = -4) (v : GoVal) (hv : k.params.lookup (lbl l) = some v)
+    (hnb : ∀ b, v ≠ .bytes b) (hnn : v ≠ .bytesNil) (hbool : l = -3 → ∀ s, v ≠ .bool s) :
+    k.validate op = some .invalidKey := by
+  have hp : k.paramIsBstr l (decide (l = -3)) = false := by
+    unfold Key.paramIsBstr
+    rw [hv]
+    cases v <;> simp
+    case bytes b => exact hnb b rfl
+    case bytesNil => exact hnn rfl
+    case bool s => intro h3; exact hbool h3 s rfl
+  unfold Key.validate
+  rcases hl with rfl | rfl | rfl <;> simp at hp <;> simp [h2, hp]
+
+/-- the same for OKP keys: x or d of any type but byte string makes the key invalid -/
+theorem validate_okp_refuses_wrong_type (k : Key) (op : KOp) (h1 : k.kty = 1) (l : Int)
+    (hl : l = -2 ∨ l = -4) (v : GoVal) (hv : k.params.lookup (lbl l) = some v)
+    (hnb : ∀ b, v ≠ .bytes b) (hnn : v ≠ .bytesNil) :
+    k.validate op = some .invalidKey := by
+  have hp : k.paramIsBstr l false = false := by
+    unfold Key.paramIsBstr
+    rw [hv]
+    cases v <;> simp
+    case bytes b => exact hnb b rfl
+    case bytesNil => exact hnn rfl
+  unfold Key.validate
+  rcases hl with rfl | rfl <;> simp [h1, hp]
 
 theorem key_accept_consistent (tmp : GoMap) (k : Key) (h : Key.ofMap tmp = .ok k) :
     k.kty ≠ 0 ∧ k.validate .none = none ∧
@@ -366,7 +509,9 @@ namespace C14
 /-- a normalised label is equal (Go `==`) only to itself -/
 theorem keyEq_normal_iff {l nl : GoVal} (hn : normalizeLabel l = some nl) (a : GoVal) :
     a.keyEq nl = true ↔ a = nl := by
-  cases l <;> simp [normalizeLabel] at hn <;> subst hn <;> cases a <;> simp [GoVal.keyEq]
+  cases l <;> (try (simp [normalizeLabel] at hn; done))
+  · rw [normalizeLabel_int_eq_some hn]; cases a <;> simp [GoVal.keyEq]
+  · simp [normalizeLabel] at hn; subst hn; cases a <;> simp [GoVal.keyEq]
 
 theorem keyEq_normal_self {l nl : GoVal} (hn : normalizeLabel l = some nl) : nl.keyEq nl = true :=
   (keyEq_normal_iff hn nl).mpr rfl
@@ -435,6 +580,60 @@ theorem go_lookup : ∀ (r : GoMap) (seen : List GoVal) (acc m0 : GoMap) (l nl v
           exact go_keeps r (nl :: seen) (acc.set nl v) m0 l nl v h hn (List.mem_cons_self ..)
             (lookup_set_same acc nl v (keyEq_normal_self hn))
         · exact go_lookup r (nl' :: seen) (acc.set nl' v') m0 l nl v h hr hn
+
+/-- the parameter loop of `Key.MarshalCBOR` succeeds only if every parameter label is a label -/
+theorem go_labels : ∀ (r : GoMap) (seen : List GoVal) (acc m0 : GoMap),
+    Key.marshalMap.go r seen acc = some m0 → ∀ e ∈ r, normalizeLabel e.1 ≠ none
+  | [], _, _, _, _, _, he => by cases he
+  | (l', v') :: r, seen, acc, m0, h, e, he => by
+    unfold Key.marshalMap.go at h
+    split at h
+    · cases h
+    · rename_i nl' hn'
+      split at h
+      · cases h
+      · rcases List.mem_cons.mp he with rfl | hr
+        · rw [hn']; simp
+        · exact go_labels r _ _ m0 h e hr
+
+/-- (repair 0eeddbc) `Key.MarshalCBOR` refuses a parameter label of type `uint` / `uint64` above
+    `math.MaxInt64` — it used to write it under the wrapped, negative label, so that
+    `Params{uint64(2^64-2): x}` came out as the x coordinate (label -2) -/
+theorem marshalMap_refuses_wide_label (k : Key) (kd : IntKind) (v : Int) (w : GoVal)
+    (hk : kd = .u ∨ kd = .u64) (hv : v > maxInt64) (hm : (.int kd v, w) ∈ k.params) :
+    k.marshalMap = none := by
+  cases h : k.marshalMap with
+  | none => rfl
+  | some m =>
+    exfalso
+    unfold Key.marshalMap at h
+    simp only [] at h
+    split at h
+    · cases h
+    · rename_i m0 hgo
+      have := go_labels _ _ _ _ hgo _ hm
+      apply this
+      rcases hk with rfl | rfl <;> simp [normalizeLabel, hv]
+
+/-- every integer parameter label of a key that `Key.MarshalCBOR` serialises (the label being a
+    value of its Go type) is at most `math.MaxInt64` -/
+theorem marshalMap_labels_int64 (k : Key) (m : GoMap) (h : k.marshalMap = some m)
+    (e : GoVal × GoVal) (he : e ∈ k.params) (kd : IntKind) (v : Int) (hl : e.1 = .int kd v)
+    (hhi : v ≤ kd.hi) : v ≤ maxInt64 := by
+  unfold Key.marshalMap at h
+  simp only [] at h
+  split at h
+  · cases h
+  · rename_i m0 hgo
+    have hn := go_labels _ _ _ _ hgo e he
+    rw [hl] at hn
+    cases hw : kd.wide with
+    | true =>
+      rw [Ne, normalizeLabel_int_eq_none] at hn
+      simp only [hw, true_and] at hn
+      omega
+    | false =>
+      cases kd <;> simp at hw <;> simp only [IntKind.hi, maxInt64] at * <;> omega
 
 /-- the EC2 coordinate padding at the end of `Key.MarshalCBOR` (key.go:569-578) -/
 def padXY (k : Key) (m : GoMap) : GoMap :=
@@ -797,21 +996,26 @@ theorem natBytes_one : natBytes 1 = [1] := by simp [natBytes]
 
 /-- `validate` accepts, for every operation, an EC2 key on one of the three curves whose x and y
     are not empty and no longer than the curve's size, whose d is no longer (and present when
-    signing), and whose algorithm is the curve's -/
+    signing; and, since e8483d3, a byte string whenever present: a d of another type is no longer
+    read as absent), and whose algorithm is the curve's -/
 theorem validate_of_ec2 (k : Key) (c : Int) (op : KOp) (h2 : k.kty = 2) (hcrv : k.crv = c)
     (hc : c = 1 ∨ c = 2 ∨ c = 3)
     (hx0 : 0 < (k.pbytes (-2)).length) (hy0 : 0 < (k.pbytes (-3)).length)
     (hx : (k.pbytes (-2)).length ≤ curveSize c) (hy : (k.pbytes (-3)).length ≤ curveSize c)
     (hd : (k.pbytes (-4)).length ≤ curveSize c)
     (hop : op = .sign → 0 < (k.pbytes (-4)).length)
-    (halg : k.alg = (if c = 1 then -7 else if c = 2 then -35 else -36)) :
+    (halg : k.alg = (if c = 1 then -7 else if c = 2 then -35 else -36))
+    (hdt : k.paramIsBstr (-4) false = true) :
     k.validate op = none := by
   have hsign : ¬ (op = .sign ∧ (k.pbytes (-4)).length = 0) := fun h => by
     have := hop h.1; omega
   have hxn : ¬ (k.pbytes (-2)).length = 0 := by omega
   have hyn : ¬ (k.pbytes (-3)).length = 0 := by omega
+  have hxt := C15.paramIsBstr_of_pbytes_pos k (-2) false hx0
+  have hyt := C15.paramIsBstr_of_pbytes_pos k (-3) true hy0
   unfold Key.validate Key.deriveAlgorithm
-  simp only [h2, hcrv, halg, hsign, hxn, hyn]
+  simp only [h2, hcrv, halg, hsign, hxn, hyn, hxt, hyt, hdt, Bool.not_true, Bool.or_self,
+    Bool.false_eq_true, if_false]
   rcases hc with h | h | h <;> subst h <;> simp [curveSize] at hx hy hd ⊢ <;> rw [if_neg (by omega)]
 
 /-- `PublicKey()` succeeds on an EC2 key of the three curves that `validate(verify)` accepts -/
@@ -830,7 +1034,7 @@ theorem validate_ecParams (c : Int) (x y : Nat) (d : Option Nat) (hc : c = 1 ∨
        params := ecParams c x y d } : Key).validate .none = none := by
   have hl := ecParams_lookups c x y d
   have hs := curveSize_pos_of c hc
-  refine validate_of_ec2 _ c .none rfl (crv_of_lookup _ _ hl.1) hc ?_ ?_ ?_ ?_ ?_ (fun h => by cases h) rfl
+  refine validate_of_ec2 _ c .none rfl (crv_of_lookup _ _ hl.1) hc ?_ ?_ ?_ ?_ ?_ (fun h => by cases h) rfl ?_
   · rw [pbytes_of_lookup _ _ _ hl.2.1]; exact ec2Coordinate_length_pos _ _ hs
   · rw [pbytes_of_lookup _ _ _ hl.2.2.1]; exact ec2Coordinate_length_pos _ _ hs
   · rw [pbytes_of_lookup _ _ _ hl.2.1]; exact (ec2Coordinate_length_le_iff _ _).mpr hx
@@ -841,6 +1045,11 @@ theorem validate_ecParams (c : Int) (x y : Nat) (d : Option Nat) (hc : c = 1 ∨
     | some dv =>
       rw [pbytes_of_lookup _ _ _ (hl.2.2.2 dv rfl)]
       exact natBytes_length_le dv _ (hd dv rfl)
+  · cases d with
+    | none =>
+      apply C15.paramIsBstr_of_absent
+      simp [ecParams, lookup_cons, keyEq_lbl_lbl, lookup_nil]
+    | some dv => exact C15.paramIsBstr_of_bytes _ _ _ _ (hl.2.2.2 dv rfl)
 
 /-- `NewKeyFromPublic` / `NewKeyFromPrivate` succeed for every pair of coordinates that fit the
     field — x = 0 or y = 0 included — and return the key with the parameters `ecParams` -/
@@ -876,18 +1085,22 @@ theorem keyFromEC_publicKey (bits x y : Nat) (d : Option Nat) (k : Key)
   obtain ⟨_, _, _, _, _, hlen⟩ := C15.validate_ec2 k .none hv h2
   obtain ⟨_, _, hld⟩ := hlen hsz
   rw [hcrv] at hld
+  have hdt : k.paramIsBstr (-4) false = true := by
+    have := C15.validate_ec2_typecheck k .none hv h2
+    simp only [Bool.or_eq_false_iff, Bool.not_eq_false'] at this
+    exact this.2
   have hver := validate_of_ec2 k (curveOfBits bits) .verify h2 hcrv hc hx0 hy0 hlx hly hld
-    (fun h => by cases h) (by rw [hkeq])
+    (fun h => by cases h) (by rw [hkeq]) hdt
   exact ⟨hver, publicKey_of_ec2 k h2 (by rw [hcrv]; exact hc) hver⟩
 
 /-- P-256 with x = y = d = 1 is accepted structurally and yields ES256 both ways -/
 example : ∃ k, keyFromEC 256 1 1 (some 1) = .ok k ∧ k.signer = .ok (-7) ∧ k.verifier true = .ok (-7) := by
   refine ⟨_, keyFromEC_ok 256 1 1 (some 1) (by decide) (by decide) (by decide)
     (by intro dv h; cases h; decide), ?_, ?_⟩
-  · simp [Key.signer, Key.canOp, Key.privateKey, Key.algorithmOrDefault, Key.validate, Key.pbytes,
+  · simp [Key.signer, Key.canOp, Key.privateKey, Key.algorithmOrDefault, Key.validate, Key.paramIsBstr, Key.pbytes,
       paramBytes, Key.crv, paramInt, lookup_cons, keyEq_lbl_lbl, Lk.getD, natBytes_one,
       curveSize, curveOfBits, ec2Coordinate_one, Key.deriveAlgorithm, ecParams]
-  · simp [Key.verifier, Key.canOp, Key.publicKey, Key.algorithmOrDefault, Key.validate, Key.pbytes,
+  · simp [Key.verifier, Key.canOp, Key.publicKey, Key.algorithmOrDefault, Key.validate, Key.paramIsBstr, Key.pbytes,
       paramBytes, Key.crv, paramInt, lookup_cons, keyEq_lbl_lbl, Lk.getD, natBytes_one,
       curveSize, curveOfBits, ec2Coordinate_one, Key.deriveAlgorithm, ecParams]
 
@@ -900,10 +1113,10 @@ example : ∃ k, keyFromEC 256 0 1 none = .ok k ∧ k.pbytes (-2) = List.replica
     (by intro dv h; cases h), ?_, ?_, ?_⟩
   · simp [Key.pbytes, paramBytes, lookup_cons, keyEq_lbl_lbl, Lk.getD, curveSize, curveOfBits,
       ecParams, ec2Coordinate_zero]
-  · simp [Key.publicKey, Key.validate, Key.pbytes,
+  · simp [Key.publicKey, Key.validate, Key.paramIsBstr, Key.pbytes,
       paramBytes, Key.crv, paramInt, lookup_cons, keyEq_lbl_lbl, lookup_nil, Lk.getD,
       curveSize, curveOfBits, ec2Coordinate_zero, ec2Coordinate_one, Key.deriveAlgorithm, ecParams]
-  · simp [Key.verifier, Key.canOp, Key.publicKey, Key.algorithmOrDefault, Key.validate, Key.pbytes,
+  · simp [Key.verifier, Key.canOp, Key.publicKey, Key.algorithmOrDefault, Key.validate, Key.paramIsBstr, Key.pbytes,
       paramBytes, Key.crv, paramInt, lookup_cons, keyEq_lbl_lbl, lookup_nil, Lk.getD,
       curveSize, curveOfBits, ec2Coordinate_zero, ec2Coordinate_one, Key.deriveAlgorithm, ecParams]
 
